@@ -92,6 +92,7 @@ type Writer struct {
 	bus         *Bus
 	flushFailAt int
 	hbFail      bool
+	park        func(point string, key any) // called inside Flush/Complete/Error (harness-owned windows)
 
 	inCall   atomic.Int32
 	viaErr   atomic.Bool
@@ -140,6 +141,9 @@ func (w *Writer) Flush() error {
 	w.flushes++
 	fail := w.flushFailAt != 0 && w.flushes == w.flushFailAt
 	w.mu.Unlock()
+	if w.park != nil {
+		w.park(PtWFlush, w.Sub)
+	}
 	w.exit(CFlush, msg, e, over, fail, true)
 	if fail {
 		return errors.New("injected flush failure")
@@ -149,11 +153,17 @@ func (w *Writer) Flush() error {
 
 func (w *Writer) Complete() {
 	e, over := w.enter(CComplete)
+	if w.park != nil {
+		w.park(PtWComplete, w.Sub)
+	}
 	w.exit(CComplete, "", e, over, false, true)
 }
 
 func (w *Writer) Error(data []byte) {
 	e, over := w.enter(CError)
+	if w.park != nil {
+		w.park(PtWError, w.Sub)
+	}
 	w.exit(CError, string(data), e, over, false, true)
 }
 
@@ -173,13 +183,13 @@ func (w *Writer) Snapshot() ([]Call, []string) {
 	return append([]Call(nil), w.calls...), append([]string(nil), w.overlaps...)
 }
 
-// Items counts the finished items (everything but write calls).
+// Items counts the finished items other than heartbeats (flushes, Complete, Error).
 func (w *Writer) Items() int {
 	w.mu.Lock()
 	defer w.mu.Unlock()
 	n := 0
 	for _, c := range w.calls {
-		if c.Kind != CWrite {
+		if c.Kind != CWrite && c.Kind != CHeartbeat {
 			n++
 		}
 	}
